@@ -744,6 +744,20 @@ def oracle(ctx, K):
                     ctx.fail(f'oracle:logexp3:{dim}:{br}-branch:error', f"log(exp S) differs from S by {e:.3g} for |w| = pi-{d:.3g} ({br} branch)", dict(rp, error=e, L=L.tolist()))
 
     # ------------------------------------------------------------------ 2D
+    def twist2(X):
+        """trlog2(X, twist=True).  Since transl2 raises for a bad argument (fix c16e6a7), vexa of the COMPLEX matrix
+        that scipy.linalg.logm may return raises ValueError('bad argument'): that outcome, together with a complex
+        matrix form, is the known complex-logm finding -> ('complex', None).  Anything else propagates."""
+        try:
+            with np.errstate(all='ignore'):
+                return 'ok', base.trlog2(X, check=False, twist=True)
+        except ValueError:
+            with np.errstate(all='ignore'):
+                Lm_ = np.asarray(base.trlog2(X, check=False, twist=False))
+            if np.iscomplexobj(Lm_):
+                return 'complex', None
+            raise
+
     def two_d(n):
         for i in range(n):
             th = rot_mag(rng) * rng.choice([-1.0, 1.0])
@@ -783,19 +797,22 @@ def oracle(ctx, K):
                 rp = {'law': '2D exp(log T) = T', 'T_hex': HX(X), 'theta': thg, 'pi_minus_abs_theta': d}
                 ctx.case(('explog2', dim, tuple(X.flatten())))
                 Lm = call(f'log2:{dim}:matrix-form', lambda: base.trlog2(X, check=False, twist=False), rp)
-                Lt = call(f'log2:{dim}:twist-form', lambda: base.trlog2(X, check=False, twist=True), rp)
+                Lt = call(f'log2:{dim}:twist-form', lambda: twist2(X), rp)
                 if Lm is None or Lt is None:
                     continue
-                Lm, Lt = np.asarray(Lm), np.asarray(Lt)
+                Lm, Lt = np.asarray(Lm), (None if Lt[0] == 'complex' else np.asarray(Lt[1]))
                 ctx.count(f'oracle:log2:{dim}:structure')
-                cplx = np.iscomplexobj(Lm) or np.iscomplexobj(Lt) or Lt.dtype == object
+                if Lt is not None and Lt.dtype == object:
+                    ctx.fail(f'oracle:log2:{dim}:twist-form:object-array', f"trlog2(twist=True) returns an object array {Lt!r}", rp)
+                    continue
+                cplx = np.iscomplexobj(Lm) or Lt is None or np.iscomplexobj(Lt)
                 if cplx:
-                    # scipy.linalg.logm kept a complex result (and vexa of a complex matrix yields an object array)
+                    # scipy.linalg.logm kept a complex result (the twist form is then complex, or vexa raises ValueError)
                     Lre = np.real(Lm)
                     small_im = float(np.max(np.abs(np.imag(Lm)))) <= 1e-6 * sc
                     ok_re = maxerr(base.trexp2(np.r_[Lre[:2, 2], Lre[1, 0]]) if dim == 'se2' else base.trexp2([Lre[1, 0]]), X) / sc <= TOL
                     if small_im and ok_re:
-                        ctx.fail('oracle:log2:logm-complex-result', f"trlog2 returns a complex / object array for rotation pi-{d:.3g}, |t|={np.linalg.norm(t) if dim == 'se2' else 0:.3g}", rp)
+                        ctx.fail('oracle:log2:logm-complex-result', f"trlog2 returns a complex array (twist form: complex or ValueError) for rotation pi-{d:.3g}, |t|={np.linalg.norm(t) if dim == 'se2' else 0:.3g}", rp)
                     elif d < 1e-7:
                         ctx.fail('oracle:log2:half-turn:logm-not-a-real-logarithm', f"trlog2 of a rotation by pi-{d:.3g}: complex result whose real part is not a logarithm", rp)
                     else:
@@ -824,15 +841,17 @@ def oracle(ctx, K):
             # ---- log(exp S) = S for |w| <= pi - 1e-6
             if abs(th) <= math.pi - 1e-6 and T is not None:
                 rp = {'law': '2D log(exp S) = S', 'S_hex': HX(tw)}
-                L = call('logexp2:se2:log', lambda: base.trlog2(T, check=False, twist=True), rp)
+                L = call('logexp2:se2:log', lambda: twist2(T), rp)
                 if L is not None:
-                    L = np.asarray(L)
+                    L = None if L[0] == 'complex' else np.asarray(L[1])
                     ctx.count('oracle:logexp2:se2')
-                    if L.dtype == object or np.iscomplexobj(L):
+                    if L is not None and L.dtype == object:
+                        ctx.fail('oracle:log2:se2:twist-form:object-array', f"trlog2(twist=True) returns an object array {L!r}", rp)
+                    elif L is None or np.iscomplexobj(L):
                         Lm = np.asarray(base.trlog2(T, check=False))
                         Lr = np.real(np.r_[Lm[:2, 2], Lm[1, 0]])
                         if maxerr(Lr, tw) / scale <= TOL and float(np.max(np.abs(np.imag(Lm)))) <= 1e-6 * scale:
-                            ctx.fail('oracle:log2:logm-complex-result', "trlog2(trexp2(S)) is complex / an object array", rp)
+                            ctx.fail('oracle:log2:logm-complex-result', "trlog2(trexp2(S)) is complex (twist form: complex or ValueError)", rp)
                         else:
                             ctx.fail('oracle:logexp2:se2:complex-and-wrong', "trlog2(trexp2(S)) complex with wrong real part", rp)
                     else:
@@ -891,8 +910,9 @@ def oracle(ctx, K):
             same('SO2.Exp:matrix', lambda: SO2.Exp(np.array([[0, -th2], [th2, 0]])).A, R2, rp)
             same('SE2.Exp:vector', lambda: SE2.Exp(tw2).A, T2, rp)
             same('SE2.Exp:matrix', lambda: SE2.Exp(skewa2_np(tw2)).A, T2, rp)
-            L2 = np.asarray(_quiet(lambda: base.trlog2(T2, check=False, twist=True)))
-            if L2.dtype.kind == 'f':
+            st2, L2 = twist2(T2)
+            L2 = np.asarray(L2) if st2 == 'ok' else None
+            if L2 is not None and L2.dtype.kind == 'f':
                 same('SE2.log:twist', lambda: SE2(T2).log(twist=True), L2, rp)
                 same('SE2.log', lambda: SE2(T2).log(), base.trlog2(T2, check=False), rp)
                 same('SO2.log:twist', lambda: SO2(R2).log(twist=True), base.trlog2(R2, check=False, twist=True), rp)
